@@ -29,15 +29,15 @@ theorem resolve_rooted_eq_rfc (segs : List Str) (h : ∀ s ∈ segs, NoSlash s) 
 example : removeDotSegments "/a/b/../../../g/./h/..".toList = "/g/".toList := by decide
 example : joinSlash (resolvePathParts (splitSlash "/a/b/../../../g/./h/..".toList)) = "/g/".toList := by decide
 
-/-- the fuel of the RFC loop is irrelevant once it covers the input (so `removeDotSegments`, which
-    starts with `length + 1`, is the RFC's unbounded loop) — on rooted texts -/
-theorem rds_fuel_irrelevant_rooted (segs : List Str) (h : ∀ s ∈ segs, NoSlash s) (n m : Nat)
-    (hn : (flat segs).length ≤ n) (hm : (flat segs).length ≤ m) :
-    rds n (flat segs) [] = rds m (flat segs) [] := by
-  have a := rds_flat segs [] n h (by simp) hn
-  have b := rds_flat segs [] m h (by simp) hm
-  simp only [flat_nil] at a b
-  rw [a, b]
+/-- The fuel of the RFC loop is irrelevant once it covers the input, for EVERY input and output buffer:
+    each of the rules 2A–2E shortens the input buffer.  Hence `removeDotSegments` (fuel `length + 1`) is the
+    RFC's unbounded `while` loop. -/
+theorem rds_fuel_irrelevant (inp out : Str) (n m : Nat) (hn : inp.length ≤ n) (hm : inp.length ≤ m) :
+    rds n inp out = rds m inp out := rds_fuel n inp out m hn hm
+
+/-- the loop, unrolled once: `removeDotSegments` satisfies the RFC's loop equation -/
+theorem rds_unroll (k : Nat) (inp out : Str) (h : inp ≠ []) : rds (k+1) inp out = rdsStep k inp out :=
+  rds_succ k inp out h
 
 /-- **navigate = RFC 5.2** for a reference without scheme and authority (path-absolute, path-relative
     with any mix of '.', '..' and empty segments, query-only, fragment-only or empty; `r.path`, `r.query`,
@@ -87,6 +87,19 @@ example : AbsBase exBase ∧ RelRef exRef ∧ (exRef.path ≠ [] ∨ DotFree exB
 
 example : recompose (resolve exBase.toRef exRef) = "http://u@a:81/b//g/?y#".toList := by
   rw [toRef_rooted exBase _ (by decide) rfl]; decide
+
+/-- the full statement (no restriction on the reference) holds for every base without a query -/
+theorem navigate_eq_rfc_of_base_without_query (b : URL) (r : Ref) (hb : AbsBase b) (hr : RelRef r)
+    (hdf : r.path ≠ [] ∨ DotFree b.parts) (hbq : b.query = []) :
+    (b.navigate (URL.ofRelRef r)).toRef.canon = (resolve b.toRef r).canon :=
+  navigate_eq_rfc_partial b r hb hr hdf (fun h => h.2.2 hbq)
+
+/-- ... and, for every base, for every reference that has a path (path-absolute or path-relative, any
+    mix of '.', '..' and empty segments, any query and fragment, base with or without dot segments) -/
+theorem navigate_eq_rfc_of_ref_with_path (b : URL) (r : Ref) (hb : AbsBase b) (hr : RelRef r)
+    (hp : r.path ≠ []) :
+    (b.navigate (URL.ofRelRef r)).toRef.canon = (resolve b.toRef r).canon :=
+  navigate_eq_rfc_partial b r hb hr (Or.inl hp) (fun h => hp h.1)
 
 /-- text-level reading: the rendering of the result and the recomposed RFC target are recompositions
     of components that agree up to empty query / fragment markers -/
